@@ -531,17 +531,19 @@ fn do_to_dot<W: Write>(
             else {
                 unreachable!();
             };
-            if let Some(description) = description {
-                writeln!(
-                    output,
-                    r#"{indentation}{node_dot_id}[label="{pos}: \"{literal}\"\n\"{description}\""];"#
-                )?;
+            // Escape quotes and backslashes of the grammar's text; keep the line break a DOT escape
+            let label = if let Some(description) = description {
+                let first = make_dot_string_constant(&format!(r#"{pos}: "{literal}""#));
+                let second = make_dot_string_constant(&format!(r#""{description}""#));
+                format!(
+                    r#"{}\n{}"#,
+                    &first[..first.len() - 1],
+                    &second[1..]
+                )
             } else {
-                writeln!(
-                    output,
-                    r#"{indentation}{node_dot_id}[label="{pos}: \"{literal}\""];"#
-                )?;
-            }
+                make_dot_string_constant(&format!(r#"{pos}: "{literal}""#))
+            };
+            writeln!(output, r#"{indentation}{node_dot_id}[label={label}];"#)?;
             if let Some(parent_dot_id) = parent_dot_id {
                 writeln!(output, r#"{indentation}{parent_dot_id} -> {node_dot_id};"#,)?;
             }
